@@ -430,12 +430,13 @@ func init() {
 				for _, b := range bs {
 					for sm := 0; sm <= 1; sm++ {
 						rs = append(rs, HRun{Pkg: "./shovel", Fn: "ZZ_C06_Range", Params: []int{k, b, sm}})
+						rs = append(rs, HRun{Pkg: "./shovel", Fn: "ZZ_C06_RangeDep", Params: []int{k, b, sm}})
 					}
 				}
 			}
 			return rs
 		},
-		Assumptions: append([]string{"start, stop, head and the prior position are free 64-bit values < 2^62 (start = 0 is the separate 'no start configured' mode); a block above the head has no hash (the node answers null, which is an error after fix c4a5d7e)"}, convAssume...),
+		Assumptions: append([]string{"start, stop, head and the prior position are free 64-bit values < 2^62 (start = 0 is the separate 'no start configured' mode); ZZ_C06_RangeDep repeats the step for an integration with one dependency whose recorded position is another free value (stop/start/resume bounds must hold for every dependency position); a block above the head has no hash (the node answers null, which is an error after fix c4a5d7e)"}, convAssume...),
 		Bounds:      map[string]string{"quick": "with/without prior position x batch in {1,3} x start configured or not", "thorough": "batch in {1,2,3,5,8}"},
 		Outside:     []string{"restarts are covered as 'resume from an arbitrary recorded position'"},
 	})
@@ -525,6 +526,13 @@ func init() {
 			for _, p := range [][]int{{1, 1, 1, 0, 2}, {1, 1, 0, 0, 2}, {1, 2, 1, 1, 2}, {1, 2, 1, 0, 2}, {1, 2, 0, 1, 2}, {1, 2, 0, 0, 2}, {0, 2, 2, 1, 2}, {1, 2, 2, 2, 1}} {
 				rs = append(rs, HRun{Pkg: "./shovel", Fn: "ZZ_C05_Deps", Params: p})
 			}
+			mb := []int{1, 2}
+			if tier == "thorough" {
+				mb = []int{1, 2, 3, 4}
+			}
+			for _, b := range mb {
+				rs = append(rs, HRun{Pkg: "./shovel", Fn: "ZZ_C05_Moving", Params: []int{b}})
+			}
 			for rb := 0; rb <= 4; rb++ {
 				for rc := 0; rc <= 4; rc++ {
 					for o := 0; o <= 2; o++ {
@@ -536,10 +544,11 @@ func init() {
 		},
 		Assumptions: append([]string{
 			"the CTE of latestDependency is modelled by hand from its SQL (per referenced integration of the same source its newest cursor row; of those the smallest; plus the number of referenced integrations that have rows); a same-named integration on another source is present and must not count",
+			"relative speeds (ZZ_C05_Moving): the dependent's top position is orphaned so its step takes a reorg pass and loops; before every later pass another session commits an arbitrary new position of the referenced integration (forward or back), visible to the open transaction as under READ COMMITTED; the recorded position and every processed block must not lie beyond the referenced position as of the last pass. A change after the last pass (before the commit) is the inherent window of the design and is not asserted",
 			"config.ValidateFix/ValidateFilterRefs: for two integrations referencing a/x through event inputs or block fields in 25 arrangements x 3 declaration orders (case-split), every referenced integration is listed in Dependencies and the referenced table is taken from the referenced integration; that reference lookups run on the inserting transaction is not covered",
 		}, convAssume...),
-		Bounds:  map[string]string{"quick": "1-2 referenced integrations with 0..2 cursor rows each (0 = not started), own position present or not", "thorough": "same"},
-		Outside: []string{"dependencies declared in nested tuple components"},
+		Bounds:  map[string]string{"quick": "1-2 referenced integrations with 0..2 cursor rows each (0 = not started), own position present or not; moving dependency with batch 1-2", "thorough": "moving dependency with batch 1-4"},
+		Outside: []string{"dependencies declared in nested tuple components", "a referenced integration that moves between the dependent's last read and its commit"},
 	})
 }
 
@@ -729,7 +738,7 @@ func init() {
 			return rs
 		},
 		Assumptions: []string{
-			"integration shapes: transaction fields, log with an indexed selected input, log with a non-indexed selected array input, trace fields, log whose only selected value is a component of a tuple array (5 shapes, all ordered pairs, shared table or not); user-declared identity column, column order, declaration order and how many columns of each table already exist in the database are case-split (enumerated, not solver-quantified)",
+			"integration shapes: transaction fields, log with an indexed selected input, log with a non-indexed selected array input, trace fields, log whose only selected value is a component of a tuple array (5 shapes, all ordered pairs, shared table or not); user-declared identity column (none / block field and column / table column only), column order, declaration order and how many columns of each table already exist in the database are case-split (enumerated, not solver-quantified)",
 			"the database's answer to information_schema.columns is cut at pgx.CollectRows inside wpg.Diff; DDL/alter statements are read back from their text; 'create unique index if not exists u_<table>' semantics: the first statement executed for a table wins",
 			"key projection: the key must contain the identity columns that tell the integration's rows apart (ig_name, src_name, block_num, tx_idx + log_idx / abi_idx / trace_action_idx by shape) and only columns the integration writes (a NULL key column never collides); the node reports distinct (block, tx_idx, log_idx) per log",
 		},
@@ -746,14 +755,18 @@ func init() {
 			var rs []HRun
 			for pos := 0; pos < 22; pos++ {
 				for path := 0; path <= 1; path++ {
-					rs = append(rs, HRun{Pkg: "./shovel", Fn: "ZZ_C15_Inject", Params: []int{pos, path}})
+					rs = append(rs, HRun{Pkg: "./shovel", Fn: "ZZ_C15_Inject", Params: []int{pos, path, 0}})
+					if pos <= 4 || pos == 11 || pos == 12 || pos == 19 {
+						// positions that reach the schema statements, which are built for disabled integrations too
+						rs = append(rs, HRun{Pkg: "./shovel", Fn: "ZZ_C15_Inject", Params: []int{pos, path, 1}})
+					}
 				}
 			}
 			rs = append(rs, HRun{Pkg: "./shovel", Fn: "ZZ_C15_Chain"})
 			return rs
 		},
 		Assumptions: []string{
-			"non-interference formulation: one symbolic byte is appended to one configuration string position (22 positions of a skeleton configuration that exercises every SQL text builder: DDL incl. unique/index statements, alter table, reorg delete, reference lookup incl. a nested tuple component, notification, application_name); whenever validation accepts and a recorded SQL text is a function of that byte, z3 must prove the byte is in [A-Za-z0-9_-]",
+			"non-interference formulation: one symbolic byte is appended to one configuration string position (22 positions of a skeleton configuration that exercises every SQL text builder: DDL incl. unique/index statements, alter table, reorg delete, reference lookup incl. a nested tuple component, notification, application_name); whenever validation accepts and a recorded SQL text is a function of that byte, z3 must prove the byte is in [A-Za-z0-9_-]; the positions that reach the schema statements (names, column name/type, unique/index entries) are also run with the integration disabled (enabled:false), whose table is still created and migrated",
 			"two validation paths: file (config.ValidateFix) and dashboard (config.CheckUserInput on the submitted integration only, then task construction without ValidateFix, as web.SaveIntegration + loadTasks do); HTTP/JSON plumbing of the dashboard is not executed",
 			"symbolic configuration bytes are ASCII (< 0x80): wstrings.Safe's unicode classes are modelled exactly for ASCII only; non-ASCII letters/digits (which Safe accepts) are outside the claim",
 			"identifiers handed to pgx.CopyFrom are quoted by pgx and count as parameters; chain-derived bytes (address, topic, data) are symbolic in ZZ_C15_Chain and must not influence any SQL text",
